@@ -19,6 +19,23 @@ var timeouts = map[string]int{}
 
 func run(c *hlib.Ctx) {
 	fixed2(c)
+	// exactly co-circular caps: FlipDelaunay first (termination at the angle tolerance), then a chain
+	for i := 0; i < 40+c.N/5; i++ {
+		g := cyclicPrism(c)
+		chain3With(c, g, 5)
+	}
+	// gently curved outlines: EliminateColinear with an epsilon just above / below the turn per vertex
+	for i := 0; i < 20+c.N/10; i++ {
+		g, eps := arcOutline(c)
+		if !manifold2(g.m) {
+			c.Stat("gen2-rejected:"+g.label, 1)
+			continue
+		}
+		c.Stat("gen2:"+strings.SplitN(g.label, "(", 2)[0], 1)
+		arcEps = eps
+		runChain2(c, g, 1+c.Rng.Intn(2), []int{1, 1})
+		arcEps = 0
+	}
 	n3 := c.N * 2 / 3
 	for i := 0; i < n3; i++ {
 		chain3(c)
@@ -28,12 +45,17 @@ func run(c *hlib.Ctx) {
 	}
 }
 
+// arcEps != 0: the epsilon the next forced EliminateColinear calls use (set by run for arc outlines).
+var arcEps float64
+
 func emitLine(c *hlib.Ctx, parts ...string) {
 	c.Emit("c10 "+strings.Join(parts, " "), "ok")
 }
 
-func chain3(c *hlib.Ctx) {
-	g := pickGen3(c)
+func chain3(c *hlib.Ctx) { chain3With(c, pickGen3(c), -1) }
+
+// chain3With runs a chain on g; firstOp >= 0 forces the first operation.
+func chain3With(c *hlib.Ctx, g mesh3, firstOp int) {
 	if g.m.NeedsRepair() || len(g.m.SingularVertices()) > 0 || g.m.NumTriangles() > 900 {
 		c.Stat("gen3-rejected:"+g.label, 1)
 		return
@@ -48,7 +70,9 @@ func chain3(c *hlib.Ctx) {
 	for i := 0; i < nops; i++ {
 		m := st.ids.meshFromSoup(st.soup)
 		forced := -1
-		if i == 0 && (g.label == "tetra" || g.label == "octa") && c.Rng.Intn(2) == 0 {
+		if i == 0 && firstOp >= 0 {
+			forced = firstOp
+		} else if i == 0 && (g.label == "tetra" || g.label == "octa") && c.Rng.Intn(2) == 0 {
 			forced = []int{8, 10, 6}[c.Rng.Intn(3)] // exact Loop / Blur / SubdivideEdges on the regular solids
 		}
 		t0 := time.Now()
@@ -214,11 +238,19 @@ func runChain2(c *hlib.Ctx, g mesh2, nops int, forced []int) {
 		case 1:
 			kind = "elimcolinear2"
 			eps := []float64{1e-8, 1e-10}[c.Rng.Intn(2)]
+			if arcEps != 0 {
+				eps = arcEps
+			} else if !st.exact && c.Rng.Intn(3) == 0 {
+				eps = []float64{1e-2, 1e-3, 1e-4, 1e-6}[c.Rng.Intn(4)]
+			}
 			f = func() { out = m.EliminateColinear(eps) }
 			exact, flat = st.exact, st.flat
-			coords = st.exact && st.flat
-			if coords {
-				params = []string{"area"}
+			// "crit <eps bits>": the coordinates are sent and the model evaluates the documented
+			// per-vertex criterion (same float operations) on every bridge of the real output
+			coords = true
+			params = []string{"crit", hlib.Hex(eps)}
+			if st.exact && st.flat {
+				params = append(params, "area")
 			}
 		case 2:
 			kind = "subdivide2"
@@ -283,7 +315,15 @@ func runChain2(c *hlib.Ctx, g mesh2, nops int, forced []int) {
 		line := append(head, "O", soupStr2(o), "K 0")
 		if coords {
 			line = append(line, st.ids.coordSection(usedIDs2(st.soup, o)))
-			c.Stat("exact-geometry-checked:"+kind, 1)
+			if kind != "elimcolinear2" || (st.exact && st.flat) {
+				c.Stat("exact-geometry-checked:"+kind, 1)
+			}
+			if kind == "elimcolinear2" {
+				c.Stat("criterion-checked-on-bridges:"+kind, 1)
+				if len(o) != len(st.soup) && !(st.exact && st.flat) {
+					c.Stat("criterion-checked-on-bridges(nearly-colinear-removed):"+kind, 1)
+				}
+			}
 		}
 		emitLine(c, line...)
 		if len(o) != len(st.soup) {
